@@ -101,6 +101,12 @@ def plan(tier, seed):
                 cases.append(dict(key=f"contact/{fk}/axis={axis}/closed={pattern}", kind="contact", mesh=mk, fk=fk, axis=axis, pattern=pattern, amp=0.02, seed=seed, tier=tier))
                 if pattern in ((1, 1, 1), (1, 0, 1), (0, 0, 0)):
                     cases.append(dict(key=f"contact/{fk}/axis={axis}/closed={pattern}/touching", kind="contact", mesh=mk, fk=fk, axis=axis, pattern=pattern, offset=0.0, amp=0.02, seed=seed, tier=tier))
+    # contact with SEVERAL connected axes (a rigid corner): every subset of >= 2 axes x every open / closed pattern of two target
+    # points per connected axis (points may touch along two or three axes at once)
+    for fk, mk in (("3d", "hexahedron"), ("ps", "quad")):
+        nd_ = 3 if fk == "3d" else 2
+        for axes in [a_ for r_ in range(2, nd_ + 1) for a_ in itertools.combinations(range(nd_), r_)]:
+            cases.append(dict(key=f"contact-corner/{fk}/axes={list(axes)}", kind="contact-corner", mesh=mk, fk=fk, axes=list(axes), amp=0.02, seed=seed, tier=tier, cost=4))
     for fk, mk in (("3d", "hexahedron"), ("ps", "quad"), ("axi", "quad"), ("mixed3d", "hexahedron")):
         for item in ("pointload", "force", "gravity"):
             cases.append(dict(key=f"{item}/{fk}", kind="load", item=item, mesh=mk, fk=fk, amp=0.1, seed=seed, tier=tier))
@@ -666,6 +672,40 @@ def run(case):
         elif active != sum(case["pattern"]):
             c.bad("pattern", "number of closed contact points", active, sum(case["pattern"]))
         return c.result(dict(case=case["key"], unknowns=int(values_of(field).size), closed=active))
+    if kind == "contact-corner":
+        mesh, region, field = make_field(case["mesh"], "renum", case["fk"], seed)
+        nd = mesh.dim
+        axes = case["axes"]
+        centre = mesh.points.max(0) + 0.3
+        # two target points nearest to the corner x = max
+        pts = np.argsort(np.linalg.norm(mesh.points - mesh.points.max(0), axis=1))[:2]
+        mesh2 = fem.Mesh(np.vstack([mesh.points, centre]), mesh.cells, mesh.cell_type)
+        region2 = zoo.region(case["mesh"], mesh2)
+        F = fem.Field if case["fk"] == "3d" else fem.FieldPlaneStrain
+        field = fem.FieldContainer([F(region2, dim=nd)])
+        set_state(field, mesh2, case["amp"], seed)
+        cp = len(mesh2.points) - 1
+        u0 = field.fields[0].values.copy()
+        u0[cp] = 0.0
+        skip = [0 if a_ in axes else 1 for a_ in range(nd)]
+        npat = 0
+        for pattern in itertools.product((0, 1), repeat=len(pts) * len(axes)):
+            u = u0.copy()
+            for k, (pi, a_) in enumerate(itertools.product(range(len(pts)), axes)):
+                gap = mesh2.points[cp, a_] - mesh2.points[pts[pi], a_]
+                u[pts[pi], a_] = gap + 0.1 if pattern[k] else gap - 0.2
+            field.fields[0].values = u
+            con = fem.MultiPointContact(field, points=pts, centerpoint=cp, skip=tuple(skip), multiplier=10.0)
+            fd_check(c, f"closed={pattern}/K-contact-only", [con], field, 1e-5, symmetric=True)
+            r = con.assemble.vector(field).toarray().reshape(-1, nd)
+            active = int((np.abs(r[pts][:, axes]) > 0).sum())
+            if active != sum(pattern):
+                c.bad(f"closed={pattern}/pattern", "number of closed (point, axis) contact pairs", active, sum(pattern))
+            if np.abs(r.sum(0)).max() > 1e-12 * max(np.abs(r).max(), 1.0):
+                c.bad(f"closed={pattern}/equilibrium", "contact forces on the points and on the centre point balance", float(np.abs(r.sum(0)).max()), 0)
+            npat += 1
+        c.outcomes.add(f"corner-patterns={npat}")
+        return c.result(dict(case=case["key"], unknowns=int(values_of(field).size), patterns=npat))
     if kind == "load":
         mixed = case["fk"] == "mixed3d"
         fk = "3d" if mixed else case["fk"]
